@@ -2011,7 +2011,7 @@ func c5Scopes(rm *resourceManager) []c5Scope {
 		}}
 		for p := 0; p < c5NProtos; p++ {
 			p := p
-			t[c5IPP(p, q)] = c5Scope{8, p*16 + q, 7, func() network.ScopeStat {
+			t[c5IPP(p, q)] = c5Scope{8, p*4096 + q, 7, func() network.ScopeStat {
 				ps := rm.getProtocolScope(c03Proto(p))
 				sub := ps.getPeerScope(c03PeerID(q))
 				st := sub.Stat()
@@ -2570,6 +2570,224 @@ func c03Sampled(t testing.TB, out *verifh.Out, rd *verifh.Rand, workers, steps i
 	}
 }
 
+// ---- case kind 5, second generator: FIRST USE of a per-peer sub-scope from several goroutines at once ----
+//
+// Round r: a fresh peer; N streams of that peer are opened; then, released by a barrier, all of
+// them call SetProtocol(same protocol) at once - the first time the (protocol, peer) pair is
+// seen, so the lookup-or-create of the per-peer sub-scope (protocolScope.getPeerScope, one
+// critical section in the code) runs concurrently; then the attached ones call SetService at
+// once (serviceScope.getPeerScope).  The limiter's GetProtocolPeerLimits / GetServicePeerLimits
+// keep the caller inside for a bounded number of yields or until a second caller is inside as
+// well (no clock): if the code serialises the callers the wait runs out, otherwise they meet.
+// Judged at quiescence (streams still open) by the proved kind-5 monitor: the REGISTERED
+// sub-scope of every (protocol, peer) / (service, peer) pair, the peer, protocol, service,
+// transient and system scopes report exactly the sum of the streams charged to them, within the
+// per-peer limits.
+
+type c5FirstUseLimiter struct {
+	Limiter
+	inside atomic.Int32
+}
+
+func (l *c5FirstUseLimiter) meet() {
+	l.inside.Add(1)
+	for i := 0; i < 4000 && l.inside.Load() < 2; i++ {
+		runtime.Gosched()
+	}
+	// let the other caller see us before we leave
+	for i := 0; i < 50; i++ {
+		runtime.Gosched()
+	}
+	l.inside.Add(-1)
+}
+func (l *c5FirstUseLimiter) GetProtocolPeerLimits(p protocol.ID) Limit {
+	l.meet()
+	return l.Limiter.GetProtocolPeerLimits(p)
+}
+func (l *c5FirstUseLimiter) GetServicePeerLimits(s string) Limit {
+	l.meet()
+	return l.Limiter.GetServicePeerLimits(s)
+}
+
+func c03FirstUse(t testing.TB, out *verifh.Out, rd *verifh.Rand, rounds int) {
+	cfg := c03BaseCfg()
+	cfg.lims[7].Streams = 1 + rd.Intn(2) // per-peer limit of a protocol
+	cfg.lims[5].Streams = 1 + rd.Intn(2) // per-peer limit of a service
+	rm := cfg.managerWith(t, &c5FirstUseLimiter{Limiter: cfg.limiter()})
+	defer rm.Close()
+	type scopeRow struct {
+		k, a, lim int
+		read      func() network.ScopeStat
+	}
+	sub := func(m map[peer.ID]*resourceScope, mu sync.Locker, pid peer.ID) network.ScopeStat {
+		// the REGISTERED sub-scope, read without creating one
+		mu.Lock()
+		ps := m[pid]
+		mu.Unlock()
+		if ps == nil {
+			return network.ScopeStat{}
+		}
+		return ps.Stat()
+	}
+	table := []scopeRow{
+		{0, 0, 0, func() network.ScopeStat { return rm.system.Stat() }},
+		{1, 0, 1, func() network.ScopeStat { return rm.transient.Stat() }},
+	}
+	for p := 0; p < c5NProtos; p++ {
+		p := p
+		table = append(table, scopeRow{5, p, 6, func() (st network.ScopeStat) {
+			rm.ViewProtocol(c03Proto(p), func(s network.ProtocolScope) error { st = s.Stat(); return nil })
+			return
+		}})
+	}
+	iSvc := len(table)
+	table = append(table, scopeRow{4, 0, 4, func() (st network.ScopeStat) {
+		rm.ViewService(c03Svc(0), func(s network.ServiceScope) error { st = s.Stat(); return nil })
+		return
+	}})
+	type holder struct {
+		id    int
+		strm  *streamScope
+		own   c5Vec
+		edges []int
+	}
+	var holders []*holder
+	races := 0
+	for r := 0; r < rounds; r++ {
+		q, p := 100+r, rd.Intn(c5NProtos)
+		pid := c03PeerID(q)
+		iPeer, iPP, iSP := len(table), len(table)+1, len(table)+2
+		table = append(table,
+			scopeRow{6, q, 8, func() (st network.ScopeStat) {
+				rm.ViewPeer(pid, func(s network.PeerScope) error { st = s.Stat(); return nil })
+				return
+			}},
+			scopeRow{8, p*4096 + q, 7, func() network.ScopeStat {
+				ps := rm.getProtocolScope(c03Proto(p))
+				defer ps.DecRef()
+				return sub(ps.peers, ps, pid)
+			}},
+			scopeRow{7, q, 5, func() network.ScopeStat {
+				sv := rm.getServiceScope(c03Svc(0))
+				defer sv.DecRef()
+				return sub(sv.peers, sv, pid)
+			}})
+		n := 2 + rd.Intn(3)
+		var hs []*holder
+		for i := 0; i < n; i++ {
+			dir := network.DirInbound
+			if rd.Bool() {
+				dir = network.DirOutbound
+			}
+			st, err := rm.OpenStream(pid, dir)
+			if err != nil {
+				t.Fatalf("OpenStream under generous limits: %v", err)
+			}
+			h := &holder{id: 100000 + len(holders), strm: st.(*streamScope), edges: []int{iPeer, 1, 0},
+				own: c5Vec{0, b2i(dir == network.DirInbound), b2i(dir == network.DirOutbound), 0, 0, 0}}
+			holders = append(holders, h)
+			hs = append(hs, h)
+		}
+		phase := func(who []*holder, f func(h *holder) error) []*holder {
+			var wg sync.WaitGroup
+			start := make(chan struct{})
+			errs := make([]error, len(who))
+			for i, h := range who {
+				wg.Add(1)
+				go func(i int, h *holder) {
+					defer wg.Done()
+					<-start
+					errs[i] = f(h)
+				}(i, h)
+			}
+			close(start)
+			wg.Wait()
+			var ok []*holder
+			for i, h := range who {
+				if errs[i] == nil {
+					ok = append(ok, h)
+				} else if !errors.Is(errs[i], network.ErrResourceLimitExceeded) {
+					t.Fatalf("first-use round: unexpected error %v", errs[i])
+				}
+			}
+			return ok
+		}
+		att := phase(hs, func(h *holder) error { return h.strm.SetProtocol(c03Proto(p)) })
+		for _, h := range att {
+			h.edges = []int{iPeer, iPP, 2 + p, 0}
+		}
+		if len(att) < n {
+			out.Cover("firstuse.setprotocol_refused_by_per_peer_limit")
+		}
+		svc := phase(att, func(h *holder) error { return h.strm.SetService(c03Svc(0)) })
+		for _, h := range svc {
+			h.edges = []int{iPeer, iPP, iSP, 2 + p, iSvc, 0}
+		}
+		if len(svc) < len(att) {
+			out.Cover("firstuse.setservice_refused_by_per_peer_limit")
+		}
+		races += n
+		_ = iSP
+	}
+	// one case: a sample of every per-peer sub-scope (limit clause; bounds = what the streams hold),
+	// then the quiescent state
+	expect := func(s int) c5Vec {
+		var v c5Vec
+		for _, h := range holders {
+			for _, e := range h.edges {
+				if e == s {
+					v = v.add(h.own)
+				}
+			}
+		}
+		return v
+	}
+	var smp []int64
+	nsmp := 0
+	for s, sc := range table {
+		if sc.k != 7 && sc.k != 8 {
+			continue
+		}
+		nsmp++
+		st := c5Stat(sc.read())
+		e := expect(s)
+		smp = append(smp, int64(sc.k), int64(sc.a))
+		smp = append(smp, c03LimWire(cfg.lims[sc.lim])...)
+		smp = append(smp, st[:]...)
+		smp = append(smp, 1)
+		smp = append(smp, e[:]...)
+		smp = append(smp, e[:]...)
+	}
+	line := append([]int64{5, int64(nsmp)}, smp...)
+	line = append(line, int64(len(holders)))
+	for _, h := range holders {
+		line = append(line, int64(h.id))
+		line = append(line, h.own[:]...)
+		line = append(line, int64(len(h.edges)))
+		for _, e := range h.edges {
+			line = append(line, int64(e))
+		}
+	}
+	line = append(line, int64(len(table)+len(holders)))
+	for s, sc := range table {
+		st := c5Stat(sc.read())
+		line = append(line, int64(s), int64(sc.k), int64(sc.a))
+		line = append(line, st[:]...)
+	}
+	for _, h := range holders {
+		st := c5Stat(h.strm.resourceScope.Stat())
+		line = append(line, int64(h.id), 10, int64(h.id))
+		line = append(line, st[:]...)
+	}
+	out.Case(line)
+	for _, h := range holders {
+		h.strm.Done()
+	}
+	out.Cover("firstuse.cases")
+	out.CoverN("firstuse.rounds", int64(rounds))
+	out.CoverN("firstuse.concurrent_first_calls", int64(races))
+}
+
 // ---- entry points ----------------------------------------------------------------------------
 
 func TestVerifNothing(t *testing.T) {}
@@ -2585,6 +2803,9 @@ func TestVerifC03(t *testing.T) {
 		// development aid: only the concurrent runs with mid-flight samples
 		for i := 0; i < 40; i++ {
 			c03Sampled(t, out, rd.Fork(), 8, 200)
+		}
+		for i := 0; i < 12; i++ {
+			c03FirstUse(t, out, rd.Fork(), 12)
 		}
 		return
 	}
@@ -2611,6 +2832,13 @@ func TestVerifC03(t *testing.T) {
 	}
 	for i := 0; i < nsamp; i++ {
 		c03Sampled(t, out, rd.Fork(), 8, ssteps)
+	}
+	nfirst := 12
+	if verifh.Tier() == "thorough" {
+		nfirst = 100
+	}
+	for i := 0; i < nfirst; i++ {
+		c03FirstUse(t, out, rd.Fork(), 12)
 	}
 	// the address plan really is what the model assumes
 	ep := c03Ep{hasIP: true, w: [4]uint32{10<<24 | 1<<16 | 1}}
@@ -2752,6 +2980,9 @@ func TestVerifC03Replay(t *testing.T) {
 		c5Replay = true
 		for i := 0; i < 12; i++ {
 			c03Sampled(t, out, rd.Fork(), 8, 200)
+		}
+		for i := 0; i < 4; i++ {
+			c03FirstUse(t, out, rd.Fork(), 12)
 		}
 		return
 	}
